@@ -16,7 +16,7 @@ PROP = dict(
         "the governance theorems are for the repaired code (fix_block_dirty, fix_gpv_drop, fix_whitelist); counter-examples are proved for the unrepaired settings",
         "protocol parameters (explicit allow-list c01ProtocolParams in harness/c01.go) are equal on all replicas; NeoFS fetcher options are not varied",
     ],
-    modelled="store layering and the NEO/Policy/Designate/Management caches (role -> latest (height, keys) with historic look-up in storage; contract hash -> id/update counter, "
+    modelled="store layering and the NEO/Policy/Designate/Management caches (role -> latest (height, keys) with historic look-up in storage; contract hash -> id/update counter/permissions/groups/safe methods with the stored stack-item form of the permissions (Auth/PermStore.v), "
              "id index, next id, blocked hash of a destroyed contract, CleanWhitelist on update/destroy) are modelled and proved; NEP-11/17 lists of Management, Oracle/Notary settings caches, the MPT, "
              "the mempool and the real goroutine schedule are covered by the replica differential only",
 )
@@ -26,7 +26,7 @@ META = dict(
          "gas-per-vote, gas-per-block, register price, blocked accounts, fee settings, whitelisted fees, latest designation per role, contract states) are coherent with storage after every block, and a restart after ANY block (any number of restarts) "
          "leaves the storage of the modelled contracts and every committee / validator / policy / getDesignatedByRole(role, any index) / getContract / whitelisted-fee answer unchanged after ANY continuation (simulation proof), including GetGASPerBlock(index) for every index and the holder-reward sum over the gas-per-block history, whose cache may hold several records of one index (last appended wins; the reading first-of-equal-indices is refuted by theorem) — for the repaired code; for the unrepaired code the three counter-example histories (findings F7, F23, F47) are theorems. "
          "Tied to the real node by a replica differential: the same blocks on memory/LevelDB/BoltDB replicas with random flush points (hook VerifPersist), KeepOnlyLatestState, "
-         "RemoveUntraceableBlocks+GC, SkipBlockVerification, VerifyTransactions off, every further bool/int node-local option found by reflection over config.Blockchain (SaveInvocations, SaveStorageBatch, GarbageCollectionPeriod, MemPoolSize, MempoolSubscriptionsEnabled, ...) toggled singly and in combinations, mempool junk and a restart at every height, histories including designations of several roles across blocks queried at historic heights, contract deploy/update/whitelist/destroy/redeploy sequences, NotaryAssisted transactions, Storage.Find / getAllCandidates / getContractHashes settings updated several times within one block and used in the next, iterators whose values are held across Next (every option class, items flushed or re-read after a restart, the same read twice), calls with unusual arguments (iterators, pointers, self-referencing and deeply nested items, buffers around MaxSize), comparing state root, full contract storage, execution results and "
+         "RemoveUntraceableBlocks+GC, SkipBlockVerification, VerifyTransactions off, every further bool/int node-local option found by reflection over config.Blockchain (SaveInvocations, SaveStorageBatch, GarbageCollectionPeriod, MemPoolSize, MempoolSubscriptionsEnabled, ...) toggled singly and in combinations, mempool junk and a restart at every height, histories including designations of several roles across blocks queried at historic heights, contract deploy/update/whitelist/destroy/redeploy sequences, NotaryAssisted transactions, Storage.Find / getAllCandidates / getContractHashes manifests of every optional shape (empty / explicit / wildcard method lists, hash / group / wildcard descriptors, groups, trusts, safe methods, standards, extra) followed by calls, writes and CheckWitness that depend on each detail, settings updated several times within one block and used in the next, iterators whose values are held across Next (every option class, items flushed or re-read after a restart, the same read twice), calls with unusual arguments (iterators, pointers, self-referencing and deeply nested items, buffers around MaxSize), comparing state root, full contract storage, execution results and "
          "all getters at every height, and on every node the iterator answers against a plain Seek dump of the same node; plus the governance model against the source node's getters. Partial: the interpreter (VM, natives outside NEO/GAS/Policy/Notary/Designate/Management) is a parameter of the store theorems; "
          "the NEP-11/17 lists of Management and the Oracle/Notary settings caches are not modelled (compared on the real replicas only).",
     note="Trusted: Coq kernel + vm_compute, the hand-written models (tied by differential comparison only), the Go harness, the VerifPersist hook, ./check. "
